@@ -10,7 +10,9 @@ EXHAUSTIVE = True
 CHUNK = 4
 RULE = ("complete enumeration: all 64000 triples over the 40-character alphabet through '.rad50 /abc/' (upper and lower case), "
         "all space-free 1-3 character '^R' literals (both cases), strings of every length 0-12 at 40 alphabet offsets, <n> codes -1..64 "
-        "alone and between strings, every non-alphabet ASCII character; statements are assembled 500 per program with bisection on "
+        "alone and between strings, all 125 triples of different codes in one directive (also between strings and through later symbols), "
+        "negated '^R' literals, every non-alphabet ASCII character, every non-ASCII character related to the alphabet by a case mapping "
+        "and every code point up to U+24FF (thorough: U+1FFFF); statements are assembled 500 per program with bisection on "
         "any deviation; a case is non-trivial when it is a distinct (statement, expected words) pair; error cases run alone")
 ASSUMPTIONS = ["reference unpacker pdpmc/ref/rad50.py (DEC RADIX-50 definition, known-answer vectors in selftest)"]
 A = ref.ALPHABET
@@ -91,6 +93,12 @@ def check(case, r, tier):
         batch.run_valid_batch(items, r, ID)
     elif k == "caret":
         items = [(("caret", s), ".word ^R" + s, words(s)) for s in case["items"]]
+        # the literal is a number like any other: negated, it is the two's complement of the packed word
+        for s in case["items"][::11]:
+            w = words(s)
+            v = (-(w[0] | (w[1] << 8))) & 0xFFFF
+            items.append((("caret-neg", s), ".word -^R" + s, bytes([v & 255, v >> 8])))
+            items.append((("caret-neg-imm", s), "mov #- ^R%s, r1" % s, b"\xc1\x15" + bytes([v & 255, v >> 8])))
         batch.run_valid_batch(items, r, ID)
     elif k == "codes":
         good = []
@@ -100,6 +108,14 @@ def check(case, r, tier):
             good.append((("code-mid", n), ".rad50 /a/<%d.>/b/" % n, bytes([w & 255, w >> 8])))
             w2 = (n * 40 + n) * 40 + n
             good.append((("code3", n), ".rad50 <%d.><%o><0x%x>" % (n, n, n), bytes([w2 & 255, w2 >> 8])))
+        # several different codes in one directive, given directly, through symbols defined later, and between strings
+        cs5 = [0, 1, 2, 38, 39]
+        for a, b, c in itertools.product(cs5, repeat=3):
+            w = (a * 40 + b) * 40 + c
+            good.append((("codes3", a, b, c), ".rad50 <%d.><%d.><%d.>" % (a, b, c), bytes([w & 255, w >> 8])))
+            w1, w2 = (1 * 40 + a) * 40 + 2, (b * 40 + 3) * 40 + c
+            good.append((("codes-mixed", a, b, c), ".rad50 /A/<%d.>/B/<%d.>/C/<%d.>" % (a, b, c), bytes([w1 & 255, w1 >> 8, w2 & 255, w2 >> 8])))
+        good.append((("codes-sym",), ".rad50 <k1><k2><k3>\nk1 = 5\nk2 = 6\nk3 = 7", bytes([((5 * 40 + 6) * 40 + 7) & 255, ((5 * 40 + 6) * 40 + 7) >> 8])))
         batch.run_valid_batch(good, r, ID)
         # inside '.repeat' the same token is evaluated once per iteration and <n> may depend on '.'
         for n in (2, 3, 5):
